@@ -4,7 +4,7 @@ FAMILY = "cleanup"
 NC = 6
 RULE = ("a real Node under the virtual clock (whole seconds), cleanup interval 1, 5 or 30 s, six chunk ids: 6..40 operations "
         "-- store_chunk (ids 1..3, TTL 2..40 s, overwrites included), ingest_manifest of manifests published elsewhere (ids "
-        "4..6, remaining lifetime 0, 1, 3..50 s), provider contacts learnt for any id (three peers, TTL 1..30 s), fetch_chunk of "
+        "4..6 and, a quarter of the time, ids 1..3 which the node may hold itself; remaining lifetime 0, 1, 3..50 s), provider contacts learnt for any id (three peers, TTL 1..30 s), fetch_chunk of "
         "any id -- in particular between a chunk's deadline and the next tick -- ticks and clock advances of 1..40 s. After "
         "every operation the cleanup notifications are drained and per chunk id the harness reads: held (raw snapshot), "
         "manifest cached, swarm plan, key-share record, locator, holders; plus the TTL audit's counts. Oracle (independent of "
@@ -13,7 +13,7 @@ RULE = ("a real Node under the virtual clock (whole seconds), cleanup interval 1
         "every local chunk that expired is reported exactly once (not before its deadline, not twice, not never once a cleanup "
         "has run past it). non-trivial = a sequence with an expiry; distinct = distinct outputs")
 ASSUMPTIONS = ["the clock moves in whole seconds in this family (sub-second deadlines are C01's)",
-               "locally stored ids and ingested ids are disjoint in the generator (a chunk that is both stored and ingested mixes two TTLs)",
+               "a chunk that is both stored locally and ingested from another publisher carries two lifetimes: each structure is judged by its own deadline",
                "pending fetches are C24's, persisted files C04's"]
 TRUSTED = ["extraction: ExtrOcamlBasic only", "harness/impl_cleanup.cpp (own NodeTestAccess friend, #define private public around "
            "KademliaTable.hpp), link-time replacement of the clocks"]
@@ -26,6 +26,11 @@ def generate(rng, tier):
     # the historical failures: expiry first noticed by a lookup; manifests and plans never pruned
     cases.append({"ints": [1, NC, 0, 1, 3, 0, 5, 3, 0, 0, 3, 1, 0, 0, 5, 2, 0, 0, 4, 0, 0, 0], "tag": "lookup-first"})
     cases.append({"ints": [1, NC, 1, 4, 5, 0, 0, 2, 4, 0, 5, 6, 0, 0, 4, 0, 0, 0, 5, 3, 0, 0, 4, 0, 0, 0], "tag": "manifest-plan"})
+    # a locally held chunk whose cached manifest is replaced by a shorter-lived one from another publisher: the manifest and
+    # its plan must go at the first cleanup past the manifest's deadline although the chunk itself lives on
+    for ttl, rem, adv in [(40, 3, 5), (10, 3, 3), (40, 5, 6), (40, 10, 39), (5, 3, 4)]:
+        cases.append({"ints": [1, NC, 0, 2, ttl, 0, 1, 2, rem, 0, 5, adv, 0, 0, 4, 0, 0, 0, 5, 1, 0, 0, 4, 0, 0, 0, 5, 40, 0, 0, 4, 0, 0, 0],
+                      "tag": "short-manifest-over-held-chunk"})
     for _ in range(n):
         iv = rng.choice([1, 1, 5, 30])
         ints = [iv, NC]
@@ -34,7 +39,9 @@ def generate(rng, tier):
             if r < 0.2:
                 ints += [0, rng.randrange(1, 4), rng.choice([2, 3, 5, 10, 40]), 0]
             elif r < 0.32:
-                ints += [1, rng.randrange(4, 7), rng.choice([0, 1, 3, 5, 10, 50]), 0]
+                # a quarter of the ingested manifests are for an id the node may also hold locally (another publisher's
+                # manifest, with its own -- shorter or longer -- lifetime, replaces the cached one)
+                ints += [1, rng.randrange(4, 7) if rng.random() < 0.75 else rng.randrange(1, 4), rng.choice([0, 1, 3, 5, 10, 50]), 0]
             elif r < 0.45:
                 ints += [2, rng.randrange(1, 7), rng.randrange(1, 4), rng.choice([1, 2, 5, 30])]
             elif r < 0.6:
